@@ -3,7 +3,9 @@ import random
 
 ID = 'C07'
 LEVEL = 'other'
-TARGETS = ['selfies/bond_constraints.py::set_semantic_constraints', 'selfies/bond_constraints.py::get_bonding_capacity']
+TARGETS = ['selfies/bond_constraints.py::set_semantic_constraints',
+           'selfies/bond_constraints.py::get_bonding_capacity',
+           'selfies/bond_constraints.py::get_semantic_robust_alphabet']
 EXPLANATION = (
     "BOUNDED stand-in (not counted as proved) plus every deductive clause listed in coverage.clauses: for each of 12 "
     "accepted tables (presets, rare elements, multi-digit and negative charges, capacity 0 and > 8), switched in "
